@@ -13,7 +13,7 @@ for a in agents:
         for f in ('patch.diff', 'demo_test.go', 'README.md'):
             if os.path.exists(d + '/' + f):
                 shutil.copy(d + '/' + f, dst + '/' + f)
-        readme = open(d + '/README.md').read() if os.path.exists(d + '/README.md') else ''
+        readme = open(d + '/README.md', errors='replace').read() if os.path.exists(d + '/README.md') else ''
         title = readme.strip().split('\n')[0].lstrip('# ').strip() if readme else ''
         needs = ''
         m = re.search(r'(?is)(what it needs[^\n]*\n)(.*?)(\n## |\Z)', readme)
@@ -22,13 +22,13 @@ for a in agents:
         files = [l[6:].strip() for l in open(d + '/patch.diff') if l.startswith('+++ b/')]
         det = []
         for out in sorted(glob.glob(d + '/check_*.out')):
-            txt = open(out).read()
+            txt = open(out, errors='replace').read()
             prop, tier = os.path.basename(out)[6:-4].split('.')
             sigs = re.findall(r'^violation (\S+) x(\d+)', txt, re.M)
             runs = re.search(r': (\d+) runs', txt)
             det.append({'check': './check %s %s' % (prop, tier), 'detected': bool(sigs), 'runs': int(runs.group(1)) if runs else None,
                         'signatures': {s: int(c) for s, c in sigs}})
-        conf = open(d + '/confirm.log').read()
+        conf = open(d + '/confirm.log', errors='replace').read()
         meta = {
             'id': sid, 'property': prop_of(a), 'title': title, 'files_changed': files,
             'needs_to_manifest': needs,
